@@ -353,6 +353,9 @@ instance (t : RTree) (p : List Nat) (a b : Nat) : Decidable (IsSimplePath t p a 
 /-- `y` has no child -/
 def isLeaf (t : RTree) (y : Nat) : Bool := (edges t).all (fun e => e.1 != y)
 
+/-- an edge without its orientation -/
+def unord (e : Nat × Nat) : Nat × Nat := if e.1 ≤ e.2 then e else (e.2, e.1)
+
 /-- number of neighbours -/
 def degree (t : RTree) (x : Nat) : Nat :=
   ((edges t).filter (fun e => e.1 == x || e.2 == x)).length
@@ -488,27 +491,43 @@ def findStart (t : RTree) : Option Nat := argmaxFirst (depths 0 t)
 def furthestNonVisitedLeaf (t : RTree) (path : List Nat) : Option Nat :=
   argmaxFirst ((depths 0 t).filter (fun e => (leavesOf t).contains e.1 && !path.contains e.1))
 
+/-- loop of `find_path` over `main_path[:-1]` (nothing to do when the start node is the root) -/
+def upPart (s r : Nat) (ks : List RTree) : Option (List Nat) :=
+  if r = s then some [] else ks.findSome? (sweepUp s)
+
+/-- children of the root kept by `_branch_downwards_origin_is_root`: those different from
+    `main_path[-2]` and `main_path_down[1]`; the tuple is only evaluated if the root has a child -/
+def keepKids (ks : List RTree) (mainPath mpd : List Nat) : Option (List RTree) :=
+  if ks.isEmpty then some [] else
+    match (if 2 ≤ mainPath.length then mainPath[mainPath.length - 2]? else none), mpd[1]? with
+    | some a, some b => some (ks.filter (fun k => !(k.rid == a || k.rid == b)))
+    | _, _ => none
+
+/-- the nodes of `main_path_down` below the root with their branches -/
+def downPart (f : Nat) (ks : List RTree) (mpd : List Nat) : Option (List Nat) :=
+  match mpd with
+  | _ :: b :: _ => (ks.find? (fun k => k.rid == b)).bind (sweepDown f)
+  | _ => some []
+
+/-- `path_down_from_root(path)`; the step at the root is written as in the Python -/
+def rootDown (t : RTree) (r : Nat) (ks : List RTree) (mainPath up : List Nat) :
+    Option (List Nat) :=
+  if ks.length == 1 then some [r] else
+    (furthestNonVisitedLeaf t up).bind fun f =>
+    (pathDown f t).bind fun mpd =>
+    (keepKids ks mainPath mpd).bind fun keep =>
+    (downPart f ks mpd).bind fun down =>
+    some (postorderL keep ++ [r] ++ down)
+
 /-- `TDVPUpdatePathFinder(t).find_path()`.  The sweeps inside the subtrees are the structural
-    recursions above; the step at the root is written as in the Python. -/
+    recursions above. -/
 def updatePath : RTree → Option (List Nat)
-  | node r ks => do
-    let t := node r ks
-    let s ← findStart t
-    let mainPath ← rootPath t s
-    -- loop over main_path[:-1]
-    let up ← if r = s then some [] else ks.findSome? (sweepUp s)
-    -- path_down_from_root(up)
-    if ks.length == 1 then some (up ++ [r]) else do
-    let f ← furthestNonVisitedLeaf t up
-    let mpd ← pathDown f t
-    let keep ← if ks.isEmpty then some [] else do
-        let a ← if 2 ≤ mainPath.length then mainPath[mainPath.length - 2]? else none
-        let b ← mpd[1]?
-        some (ks.filter (fun k => !(k.rid == a || k.rid == b)))
-    let down ← match mpd with
-      | _ :: b :: _ => (ks.find? (fun k => k.rid == b)).bind (sweepDown f)
-      | _ => some []
-    some (up ++ postorderL keep ++ [r] ++ down)
+  | node r ks =>
+    (findStart (node r ks)).bind fun s =>
+    (rootPath (node r ks) s).bind fun mainPath =>
+    (upPart s r ks).bind fun up =>
+    (rootDown (node r ks) r ks mainPath up).bind fun dn =>
+    some (up ++ dn)
 
 /-! ### Keys of the initial cache -/
 
